@@ -2,28 +2,36 @@ package main
 
 import (
 	"bytes"
+	"encoding/binary"
 	"fmt"
 	"os"
 
 	"github.com/gogpu/naga"
-	"github.com/gogpu/naga/dxil"
-	"verif/internal/irstrict"
 	"github.com/gogpu/naga/ir"
+	"github.com/gogpu/naga/spirv"
 )
 
-func main() {
-	b, _ := os.ReadFile(os.Args[1])
+func lower(p string) *ir.Module {
+	b, _ := os.ReadFile(p)
 	src := string(b)
-	low := func() *ir.Module { ast, _ := naga.Parse(src); m, _ := naga.LowerWithSource(ast, src); return m }
-	m := low()
-	d0 := irstrict.Dump(m, false)
-	a, err := dxil.Compile(m, dxil.DefaultOptions())
-	fmt.Println("err", err)
-	d1 := irstrict.Dump(m, false)
-	b2, _ := dxil.Compile(m, dxil.DefaultOptions())
-	fmt.Println("same module twice equal:", bytes.Equal(a, b2), "module mutated by first compile:", d0 != d1)
-	c, _ := dxil.Compile(low(), dxil.DefaultOptions())
-	fmt.Println("fresh module equal to first:", bytes.Equal(a, c))
-	e, _ := dxil.Compile(low(), dxil.DefaultOptions())
-	fmt.Println("two fresh equal:", bytes.Equal(c, e))
+	ast, _ := naga.Parse(src)
+	m, _ := naga.LowerWithSource(ast, src)
+	return m
+}
+
+func main() {
+	be := spirv.NewBackend(spirv.Options{Version: spirv.Version1_3})
+	n := len(os.Args)
+	for _, a := range os.Args[1 : n-1] {
+		be.Compile(lower(a))
+	}
+	got, err1 := be.Compile(lower(os.Args[n-1]))
+	want, err2 := spirv.NewBackend(spirv.Options{Version: spirv.Version1_3}).Compile(lower(os.Args[n-1]))
+	fmt.Println(err1, err2, len(got), len(want), bytes.Equal(got, want))
+	for i := 0; i+4 <= len(got) && i+4 <= len(want); i += 4 {
+		if g, w := binary.LittleEndian.Uint32(got[i:]), binary.LittleEndian.Uint32(want[i:]); g != w {
+			fmt.Printf("first diff at word %d: reused %08x fresh %08x\n", i/4, g, w)
+			break
+		}
+	}
 }
